@@ -140,6 +140,17 @@ func newMachine(b base) (*world, error) {
 	return w, nil
 }
 
+// historyErr: the real machine did not accept an update of a base state's history although the
+// reference predicate says it is a valid successor. That is an observation about the code under
+// test (C02, clause refused-valid / panic), not an engine error.
+type historyErr struct {
+	Step   string // stable short name of the history step
+	Clause string // "refused-valid" | "panic"
+	Text   string
+}
+
+func (e *historyErr) Error() string { return e.Text }
+
 // build replays the history of a base state on a new machine.
 func build(b base) (*world, error) {
 	w, err := newMachine(b)
@@ -154,19 +165,26 @@ func build(b base) (*world, error) {
 	if err := signAndEnable(w); err != nil {
 		return nil, err
 	}
-	update := func(what string, actor int, f func(s *channel.State)) error {
+	update := func(step, what string, actor int, f func(s *channel.State)) error {
 		s := m.State().Clone()
 		s.Version++
 		f(s)
-		if err := m.Update(s, channel.Index(actor)); err != nil {
-			return fmt.Errorf("Update(%s): %w", what, err)
+		if r := validSuccessor(w.ci, m.State(), s, channel.Index(actor)); len(r) != 0 {
+			return fmt.Errorf("engine: history step %q is not a valid successor: %v", what, r)
+		}
+		err, pan := guard(func() error { return m.Update(s, channel.Index(actor)) })
+		if pan != nil {
+			return &historyErr{step, "panic", fmt.Sprintf("Update(%s, actor %d) of the history %v panicked: %v; candidate %s", what, actor, w.hist, pan, brief(s))}
+		}
+		if err != nil {
+			return &historyErr{step, "refused-valid", fmt.Sprintf("Update(%s, actor %d) after the history %v was refused although the candidate satisfies every condition: %v; candidate %s", what, actor, w.hist, err, brief(s))}
 		}
 		w.hist = append(w.hist, fmt.Sprintf("Update(%s,actor=%d)", what, actor))
 		return signAndEnable(w)
 	}
 	if b.Locked {
 		// participant 0 locks 2 of every asset into a sub-channel
-		err := update("lock 2 of every asset", 0, func(s *channel.State) {
+		err := update("lock", "lock 2 of every asset", 0, func(s *channel.State) {
 			bals := make([]channel.Bal, b.NAsset)
 			for a := range bals {
 				s.Balances[a][0].Sub(s.Balances[a][0], bi(2))
@@ -181,13 +199,13 @@ func build(b base) (*world, error) {
 	for i := 0; i < b.NUpd; i++ {
 		var err error
 		if i == 0 {
-			err = update("0 pays 1 of asset 0 to 1", 0, func(s *channel.State) {
+			err = update("pay", "0 pays 1 of asset 0 to 1", 0, func(s *channel.State) {
 				s.Balances[0][0].Sub(s.Balances[0][0], bi(1))
 				s.Balances[0][1].Add(s.Balances[0][1], bi(1))
 			})
 		} else {
 			last := b.NAsset - 1
-			err = update(fmt.Sprintf("1 pays 1 of asset %d to 0", last), 1, func(s *channel.State) {
+			err = update("pay-back", fmt.Sprintf("1 pays 1 of asset %d to 0", last), 1, func(s *channel.State) {
 				s.Balances[last][1].Sub(s.Balances[last][1], bi(1))
 				s.Balances[last][0].Add(s.Balances[last][0], bi(1))
 			})
@@ -197,7 +215,7 @@ func build(b base) (*world, error) {
 		}
 	}
 	if b.Final {
-		if err := update("final", 0, func(s *channel.State) { s.IsFinal = true }); err != nil {
+		if err := update("final", "final", 0, func(s *channel.State) { s.IsFinal = true }); err != nil {
 			return nil, err
 		}
 	}
